@@ -93,11 +93,6 @@ Notation cex_C13s I1 I2 := (filter (bad_tok I1 I2) dom3).
 Definition passthrough (b : N) : bool :=
   (128 <=? b) && match xlat b with None => true | Some _ => false end &&
   negb ((b =? 0xE0) || (b =? 0xE1) || (b =? 0xF0)).
-Definition home (I : ScanImpl) (bs : list N) : bool :=
-  match sc_init I with
-  | Ret s0 => match run (scan_machine I) s0 bs with Ret (s', _) => sc_eqb I s' s0 | Panic => false end
-  | Panic => false
-  end.
 Definition bad_junk (I1 I2 : ScanImpl) (b : N) : bool := passthrough b && negb (home I2 [b] && home I1 [b]).
 Notation cex_junk_C13s I1 I2 := (filter (bad_junk I1 I2) all_bytes).
 
